@@ -121,6 +121,22 @@ for _pid, _extra in ROUND11.items():
     _l, _t, _text, _n, _r = CHECKS[_pid]
     CHECKS[_pid] = (_l, _t, _text + _extra, _n, _r)
 
+ROUND12 = {
+    "C01": " Round 12: a helper re-executed reading a new variable, then the variable changes.",
+    "C03": " Round 12: equal numbers of different types read by different functions.",
+    "C04": " Round 12: strings with a backslash and their escape twins.",
+    "C05": " Round 12: every memoization hands over a memento of its own; the same result memoized twice.",
+    "C07": " Round 12: two writers under one override key under schedule control.",
+    "C08": " Round 12: earlier calls stored under the override key the faulted call writes to.",
+    "C10": " Round 12: sub-calls whose result the body ignores.",
+    "C12": " Round 12: current functions must not read back as external; class-nested functions in the store part.",
+    "C15": " Round 12: batches of 300+ elements.",
+    "C18": " Round 12: YAML's other boolean spellings.",
+}
+for _pid, _extra in ROUND12.items():
+    _l, _t, _text, _n, _r = CHECKS[_pid]
+    CHECKS[_pid] = (_l, _t, _text + _extra, _n, _r)
+
 NOT_BUILT = "check not built yet in this round (design in DESIGN.md §4); will be claimed once its monitor exists"
 
 
